@@ -216,7 +216,10 @@ def same_value(fx, a, b):
 def run_case(fx, case, argform="list"):
     """single operation, in memory: outcome = model, and the parent is flagged modified whenever the model value changes"""
     op, exp = case["op"], case["exp"]
-    fx.fresh_memory(case["val"])
+    try:
+        fx.fresh_memory(case["val"])
+    except Exception as e:
+        return "setup", "assigning %r to the attribute raised %r" % (case["val"], e)
     old = fx.observe()
     exc, rk, ret = fx.perform(op, argform)
     got = fx.observe()
